@@ -13,6 +13,7 @@ pub mod c11;
 pub mod c12;
 pub mod c13;
 pub mod c16;
+pub mod c18;
 pub mod values;
 pub mod common;
 pub mod predicates;
@@ -31,6 +32,7 @@ pub fn lookup(id: &str) -> Option<Box<dyn Property + Send>> {
         "C12" => Some(Box::new(c12::C12)),
         "C13" => Some(Box::new(c13::C13)),
         "C16" => Some(Box::new(c16::C16)),
+        "C18" => Some(Box::new(c18::C18)),
         _ => None,
     }
 }
